@@ -349,7 +349,7 @@ func asInt(val any) (int, bool) {
 	}
 	rv := reflect.ValueOf(val)
 	switch rv.Kind() {
-	case reflect.Int8, reflect.Int16, reflect.Int32, reflect.Int64:
+	case reflect.Int, reflect.Int8, reflect.Int16, reflect.Int32, reflect.Int64: // reflect.Int: named int types
 		return int(rv.Int()), true
 	case reflect.Uint, reflect.Uint8, reflect.Uint16, reflect.Uint32, reflect.Uint64:
 		if rv.Uint() > math.MaxInt32 {
